@@ -104,3 +104,28 @@ def tunnel_run(maxlen, backend="memory", seqs=None):
                 "sample": [x for x in lines if x.get("s") == 1][:4], "backend": backend}
     finally:
         shutil.rmtree(d, ignore_errors=True)
+
+
+def slow_run(ks, backend="memory"):
+    """C05 slow readers: scenarios enumerated by TLC, run on the real proxy, judged by TLC."""
+    d = vlib.scratch("slow-")
+    try:
+        consts = dict(Ks=set(ks), ScenFile=os.path.join(d, "scen.ndjson"), ResultFile=os.path.join(d, "res.ndjson"), PromptMs=10000)
+        cfg = vlib.cfg_text(consts, spec="Spec")
+        vlib.tlc_check("SlowReadersGen", cfg, timeout=120, workers=1)
+        if not os.path.exists(os.path.join(d, "scen.ndjson")):
+            raise vlib.Inconclusive("SlowReadersGen produced no scenarios")
+        binp = vlib.go_build("relaydrv")
+        rc, out, err, _ = vlib.run_driver(binp, ["-mode", "slow", "-backend", backend, "-in", os.path.join(d, "scen.ndjson"), "-out", os.path.join(d, "res.ndjson")],
+                                          cwd=d, timeout=1800)
+        if rc != 0 or "relaydrv done" not in out:
+            raise vlib.Inconclusive("relaydrv slow failed (rc=%s): %s" % (rc, err[-1500:]))
+        r2 = vlib.tlc_check("SlowReadersJudge", cfg, timeout=300, workers=1)
+        m = re.search(r'<<\s*"SLOW-RESULT",\s*(\d+),\s*(\d+),\s*(".*")\s*>>\s*\n', r2["out"], re.S)
+        if not m:
+            raise vlib.Inconclusive("slow judge gave no result: %s" % r2["out"][-1500:])
+        bad = json.loads(json.loads("".join(x.strip() for x in m.group(3).splitlines())))
+        res = [json.loads(x) for x in open(os.path.join(d, "res.ndjson"))]
+        return {"scenarios": int(m.group(1)), "nbad": int(m.group(2)), "bad": bad, "backend": backend, "sample": res[:3]}
+    finally:
+        shutil.rmtree(d, ignore_errors=True)
